@@ -46,7 +46,10 @@ fn write(w: &World, net: &Net, wi: usize, kind: usize, rng: &mut Rng) -> Result<
     let node = &net.nodes[wi];
     let signer = SigningKey::from_bytes(&rng.array::<32>());
     // a quarter of the values are close to the 1000-byte limit (datagrams of 1.1 - 1.8 kB with 20 nodes listed)
-    let value = if rng.chance(1, 4) { rng.blob(870, 1000) } else { rng.blob(1, 60) };
+    // (one in twelve values is over the 1000-byte limit, one in twelve salts over 64 bytes: every storing node
+    // refuses such a write, so the put must not return Ok - if it does, the readers below will not find it)
+    let oversize = rng.chance(1, 12);
+    let value = if oversize { rng.blob(1001, 1100) } else if rng.chance(1, 4) { rng.blob(870, 1000) } else { rng.blob(1, 60) };
     w.set_trace(TraceLevel::Full);
     w.clear_trace();
     let mut out = Written { kind, target: Id::from([0; 20]), value: value.clone(), item: None, signer: signer.clone(), port: None, writer: wi, ackers: HashSet::new() };
@@ -54,7 +57,7 @@ fn write(w: &World, net: &Net, wi: usize, kind: usize, rng: &mut Rng) -> Result<
     let res: Option<Result<Id, String>> = match kind {
         0 => w.block_on(node.adht.put_immutable(&value), bound).map(|r| r.map_err(|e| format!("{e:?}"))),
         1 => {
-            let salt: Option<Vec<u8>> = if rng.bool() { Some(rng.blob(1, 10)) } else { None };
+            let salt: Option<Vec<u8>> = if rng.chance(1, 12) { Some(rng.blob(65, 80)) } else if rng.bool() { Some(rng.blob(1, 10)) } else { None };
             let item = MutableItem::new(&signer, &value, rng.below(1000) as i64, salt.as_deref());
             out.item = Some(item.clone());
             w.block_on(node.adht.put_mutable(item, None), bound).map(|r| r.map_err(|e| format!("{e:?}")))
